@@ -230,6 +230,8 @@ class SimParallel(object):
 
         def worker(me):
             try:
+                import numpy as _np
+                _np.seterr(all="ignore")          # per-thread in NumPy 2: match the caller's setting
                 with cv:
                     while state["current"] != me and not state["abort"]:
                         cv.wait()
